@@ -182,6 +182,7 @@ CbEvent(st, f, doneActs) ==
       ctx  |-> 1, self |-> 1,
       ev   |-> IF f.m \in {M_PRE_REACT, M_REACT, M_POST_REACT, M_QUERY} THEN 1 ELSE 0 - 1,
       req  |-> st.request,
+      cprev |-> st.prev,
       cur  |-> IF kind = 0 THEN NoT ELSE st.cur,
       pend |-> IF kind = 3 THEN st.pend ELSE NoT,
       plan |-> IF kind = 0 THEN <<>> ELSE st.plan,
